@@ -148,6 +148,9 @@ def c07(tier, seed):
     rep = core.Report("C07", tier, seed)
     rep.assumptions = list(ASSUME)
     run_models(rep, c07_models(tier), clauses_of("C07"))
+    # code -> spec: stamps of the executions recorded from the repository's own back-tests (EnvTrace.tla, clause stamp)
+    from . import envtrace_check
+    envtrace_check.validate_repo_tests(rep, tier, {"stamp"})
     return rep.finish()
 
 
